@@ -274,6 +274,14 @@ Cuts(im) ==
                                   : vf \in VF(im.parts[p])}
                       : p \in 1..Len(im.parts)}
   IN {c \in bounds \cup {b - 1 : b \in bounds} \cup {b + 1 : b \in bounds} \cup inner : c >= 0 /\ c <= total}
+\* the cuts that fall inside structures (header, SAT, directory, sample headers, last data sectors)
+InnerCuts(im) ==
+  UNION {{PartBase(p) + 100, PartBase(p) + 2000}
+         \cup UNION {{PartBase(p) + im.parts[p].vols[v].dir[1] * S + 30} : v \in 1..Len(im.parts[p].vols)}
+         \cup UNION {{PartBase(p) + FileAt(im.parts[p], vf).chain[1] * S + 1, PartBase(p) + FileAt(im.parts[p], vf).chain[1] * S + 70,
+                      PartBase(p) + FileAt(im.parts[p], vf).chain[Len(FileAt(im.parts[p], vf).chain)] * S + (S \div 2) + 1}
+                     : vf \in VF(im.parts[p])}
+         : p \in 1..Len(im.parts)}
 NeedsWithinImage == done => \A n \in Needs(img) : n.need <= Len(img.parts) * NSect * S
 
 Emit ==
@@ -282,5 +290,5 @@ Emit ==
                               parts |-> [p \in 1..Len(img.parts) |->
                                            [vols |-> img.parts[p].vols, sys |-> img.parts[p].sys,
                                             sat |-> {pr \in SatPairs(img.parts[p]) : pr[2] # 0}]],
-                              expected |-> Expected(img), needs |-> Needs(img), cuts |-> Cuts(img)])>>)
+                              expected |-> Expected(img), needs |-> Needs(img), cuts |-> Cuts(img) \cup InnerCuts(img), inner_cuts |-> InnerCuts(img)])>>)
 =============================================================================
